@@ -65,6 +65,8 @@ type Recorder struct {
 	Known       []string `json:"known_findings_seen"`
 	Violations  int      `json:"violations"`
 	Inconclusive string  `json:"inconclusive,omitempty"`
+	flushEvery    int
+	shardOverride string
 }
 
 func NewRecorder(prop, name, rule string) *Recorder {
@@ -81,12 +83,18 @@ func hashKey(s string) uint64 {
 // satisfies the property's non-triviality rule.
 func (r *Recorder) Case(key string, nontrivial bool, sample any, labels ...string) {
 	r.mu.Lock()
-	defer r.mu.Unlock()
+	defer func() {
+		fl := r.flushEvery > 0 && r.Evals%r.flushEvery == 0
+		r.mu.Unlock()
+		if fl {
+			r.Flush()
+		}
+	}()
 	r.Evals++
 	for _, l := range labels {
 		r.Labels[l]++
 	}
-	if nontrivial {
+	if nontrivial && len(r.nontrivial) < 200000 {
 		h := hashKey(key)
 		if _, ok := r.nontrivial[h]; !ok {
 			r.nontrivial[h] = struct{}{}
@@ -117,7 +125,11 @@ func (r *Recorder) Flush() {
 		Hashes []string `json:"hashes"`
 	}
 	b, _ := json.Marshal(full{r, hs})
-	os.WriteFile(filepath.Join(outDir(), fmt.Sprintf("stats-%s-%s.json", r.Name, shard())), b, 0o644)
+	sh := shard()
+	if r.shardOverride != "" {
+		sh = r.shardOverride
+	}
+	os.WriteFile(filepath.Join(outDir(), fmt.Sprintf("stats-%s-%s.json", r.Name, sh)), b, 0o644)
 }
 
 // ---- known findings ----
@@ -343,4 +355,24 @@ func replayCorpus[T any](t *testing.T, rec *Recorder, check func(t *testing.T, s
 		}
 	}
 	return ok
+}
+
+// ---- recorder for native fuzz targets (one per worker process, flushed periodically) ----
+
+var (
+	fuzzRecMu sync.Mutex
+	fuzzRecs  = map[string]*Recorder{}
+)
+
+func fuzzRecorder(name string) *Recorder {
+	fuzzRecMu.Lock()
+	defer fuzzRecMu.Unlock()
+	r := fuzzRecs[name]
+	if r == nil {
+		r = NewRecorder(name[:3], name, "native go fuzzing (coverage-guided) of "+name+": fuzzer bytes are decoded into mutation specs over the genuine replies of a fixed short scenario, or into raw packets; same oracle as the rapid check; non-trivial = a hostile packet was returned by Read; distinct by input hash (capped)")
+		r.flushEvery = 500
+		r.shardOverride = fmt.Sprintf("w%d", os.Getpid())
+		fuzzRecs[name] = r
+	}
+	return r
 }
